@@ -125,11 +125,16 @@ def _init():
 
 
 def ident_positions(text):
+    """(line, column inside the identifier, end column); regex based so that incomplete
+    programs (an unclosed call at the end) can be probed too; string/comment contents are
+    skipped by blanking them first."""
+    import re
     out = []
-    for tok in tokenize.generate_tokens(io.StringIO(text).readline):
-        if tok.type == tokenize.NAME and not keyword.iskeyword(tok.string):
-            out.append((tok.start[0], tok.start[1] + (1 if len(tok.string) > 1 else 0),
-                        tok.end[1]))
+    for li, ln in enumerate(text.split('\n'), 1):
+        code = re.sub(r"('[^']*'|\"[^\"]*\"|#.*)", lambda m: ' ' * len(m.group(0)), ln)
+        for m in re.finditer(r'[^\W\d]\w*', code):
+            if not keyword.iskeyword(m.group(0)):
+                out.append((li, m.start() + (1 if len(m.group(0)) > 1 else 0), m.end()))
     return out
 
 
@@ -202,6 +207,28 @@ class _Sched:
     total = 0
 
 
+def _stable_key(v):
+    """Address-free description of a value, only used to order values met for the first time in
+    the same iteration."""
+    try:
+        node = getattr(v, 'tree_node', None)
+        pos = node.start_pos if node is not None else (0, 0)
+    except Exception:
+        pos = (0, 0)
+    try:
+        nm = v.name.string_name
+    except Exception:
+        nm = ''
+    return (type(v).__name__, str(getattr(v, 'api_type', '')), str(nm), pos)
+
+
+def _as_set(rows):
+    try:
+        return sorted(map(json.dumps, rows))
+    except Exception:
+        return rows
+
+
 def _install_order_seam():
     if _Sched.installed:
         return
@@ -214,6 +241,7 @@ def _install_order_seam():
             items = list(frozenset.__iter__(self))
             if len(items) < 2:
                 return iter(items)
+            items.sort(key=_stable_key)     # never let the native (address) order leak in
             for v in items:
                 if id(v) not in _Sched.seq:
                     _Sched.seq[id(v)] = len(_Sched.seq)
@@ -282,9 +310,14 @@ def _work_sched(task):
                 got, _ = _run_schedule(text, 'sch%d_%d' % (os.getpid(), k), m, l, col, plan)
                 out['runs'] += 1
                 if got != base:
+                    only_order = m == 'help' and _as_set(got) == _as_set(base)
                     out['fails'].append({
-                        'site': 'order-dependent-result@%s' % m,
-                        'input': '%s|%s@%d:%d|reverse%s' % (task['id'], m, l, col, list(plan)),
+                        'site': ('help-order-is-set-order@help' if only_order
+                                 else 'order-dependent-result@%s' % m),
+                        # help() does not sort its definitions at all (one call site): every
+                        # order-only difference is the same finding, whatever the program
+                        'input': ('help-result-order' if only_order
+                                  else '%s|%s@%d:%d' % (task['id'], m, l, col)),
                         'detail': {'text': text, 'query': [m, l, col], 'schedule': list(plan),
                                    'canonical': base, 'deviated': got}})
                     break
@@ -443,7 +476,13 @@ def run(ctx):
     # (ii) repetition
     depth = 3 if tier == 'quick' else 4
     seqs = [list(s) for d in range(1, depth + 1) for s in itertools.product(range(8), repeat=d)]
-    rep_progs = progs[:2] if tier == 'quick' else progs[:4]
+    # repetition runs on programs whose answers do not depend on set order (the order-dependent
+    # ones are the subject of (i) and would make "same answer again" depend on object addresses)
+    det = [(p, t) for p, t in progs if p == 'u:exec-budget']
+    for chain in (['identity'], ['init_attr'], ['closure', 'method_ret'], ['generator_for']):
+        pp = pf.build('inst', chain)
+        det.append((pp.pid(), pp.render()['main.py']))
+    rep_progs = det[:3] if tier == 'quick' else det
     tasks = []
     for pid, text in rep_progs:
         chunk = max(1, len(seqs) // 16)
@@ -495,9 +534,12 @@ def run(ctx):
                     for q in ref[pid]:
                         nobs += 1
                         if r[pid].get(q) != ref[pid][q]:
+                            only_order = q.startswith('help@') and \
+                                _as_set(r[pid].get(q) or []) == _as_set(ref[pid][q])
                             ctx.violation(
+                                'help-order-is-set-order@help' if only_order else
                                 'differs-between-processes@%s' % q.split('@')[0],
-                                '%s|%s' % (pid, q),
+                                'help-result-order' if only_order else '%s|%s' % (pid, q),
                                 {'program': dict(menu_progs).get(pid), 'query': q,
                                  'seed0': ref[pid][q], 'seed%d_junk%d' % (t['seed'], t['junk']):
                                  r[pid].get(q)},
